@@ -1,9 +1,48 @@
 (* C02 - children and JSX text follow the JSX whitespace and child-list rules.
-   This file contains statements only; proofs live in Lemmas/. *)
-From VJ Require Import Model.Str Model.Text Spec.JsxText Lemmas.TextProofs.
+   This file contains statements only; proofs live in Lemmas/.
+
+   The text rule is proved for every string.  The child-list rule is proved for every child
+   list of an element host, relative to the lowering [rec] / check [chk] of nested elements
+   (which is the induction hypothesis of the recursive statement, discharged per case by the
+   oracle): the children argument the transform builds is the one [check_children_with]
+   describes.  Known finding excluded by hypothesis: an element whose ONLY child is a function or
+   an object literal (C02_sole_special_refuted). *)
+From VJ Require Import Model.Str Model.Json Model.Ast Model.State Model.Text Model.Lower
+  Spec.JsxText Spec.OutViews Spec.Site Spec.SiteCheck Lemmas.TextProofs Lemmas.ChildProofs.
 
 (* the text cleaning of the transform is the standard JSX rule, for every string *)
 Theorem C02_text : forall s : str, transform_text s = jsx_clean s.
 Proof. exact transform_text_is_jsx_clean. Qed.
 Print Assumptions C02_text.
 Check C02_text : forall s : str, transform_text s = jsx_clean s.
+
+(* written children in order: cleaned text, expressions, spliced spreads, nested vnodes;
+   empty expressions and text cleaning to "" contribute nothing *)
+Theorem C02_children_in_order : forall E rec chk fail cs s,
+  rec_ok rec chk cs -> forallb child_ok cs = true ->
+  check_items_with chk fail cs (view_items (fst (lower_children_with E rec cs s))) = [].
+Proof. exact children_items. Qed.
+Print Assumptions C02_children_in_order.
+
+(* the children argument of an element host: the array of those children, null when none remain *)
+Theorem C02_children_argument : forall E rec chk cs s s2 vslots,
+  rec_ok rec chk cs -> forallb child_ok cs = true ->
+  assign_left s2 = None ->
+  sole_special (live_children cs) = false ->
+  check_children_with E chk false vslots cs
+    (fst (finish_children E (fst (lower_children_with E rec cs s)) false vslots s2)) = [].
+Proof. intros. apply children_refine; auto. Qed.
+Print Assumptions C02_children_argument.
+
+(* the known finding: `<div>{() => 1}</div>` receives a slots object, not a one-element array *)
+Theorem C02_sole_special_refuted : forall E s,
+  let fn := Arrow 0 [] (Num (s_ "1.0") nnull) false false nnull nnull in
+  fst (finish_children E [Elem false fn] false None s)
+  = Obj [KV (IdName (s_ "default")) fn]
+  /\ fst (finish_children E [Elem false fn] false None s) <> Arr [Elem false fn].
+Proof.
+  intros E s. cbv zeta. split.
+  - unfold finish_children. destruct (o_optimize (e_opts E)); [destruct (rev (slot_stack s))|]; reflexivity.
+  - unfold finish_children. destruct (o_optimize (e_opts E)); [destruct (rev (slot_stack s))|]; discriminate.
+Qed.
+Print Assumptions C02_sole_special_refuted.
